@@ -117,9 +117,19 @@ def r2(ctx, lib):
     if not cps or not rms:
         ctx.missing('C18.R2', 'copy/remove in move_copy', b.where())
         return
-    sw = switch_on_result_of(b, cps[0])
-    good = sw is not None and all(any(b.dominates(o, r.bb) for o in sw['ok']) for r in rms)
-    ctx.check(good, 'C18.R2', b.path + '|remove-after-copy', rms[0].where(), 'remove(source) is dominated by the success edge of the copy', 'the source can be removed although the copy failed or has not happened')
+    from ..analysis import result_tests, reachable_state
+    ct = result_tests(b, cps[0])
+    src = [r for r in rms if backslice(b, [r.args[0]]).params == {1}]
+    err_region = reachable_state(b, 0, ct, 'err') if ct else set(range(len(b.blocks)))
+    good = bool(ct) and bool(src) and all(r.bb not in err_region for r in src)
+    ctx.check(good, 'C18.R2', b.path + '|remove-after-copy', (src[0] if src else rms[0]).where(), 'remove(source) is reached only after the copy succeeded', 'the source can be removed although the copy failed or has not happened')
+    # a failed copy leaves nothing under the target directory: the partial target is removed on the failure edge
+    tgt = [r for r in rms if backslice(b, [r.args[0]]).params == {2}]
+    ok_region = reachable_state(b, 0, ct, 'ok') if ct else set()
+    ctx.check(bool(tgt) and all(r.bb in err_region and r.bb not in ok_region for r in tgt), 'C18.R2', b.path + '|no-partial-target', (tgt[0].where() if tgt else cps[0].where()),
+              'when the copy fails the incomplete target is removed',
+              'when fs::copy fails in the middle (ENOSPC, EIO, quota) the partly written file stays at DIR/<path>: it carries the name of the source but not its bytes, and every later `move` refuses the '
+              'source with "Target already exists"')
 
 
 def r3(ctx, lib):
